@@ -155,6 +155,8 @@ structure RawMainD4 where
 def RawMainD4.Valid (m : RawMainD4) : Prop :=
   In16 m.flags ∧ In16 m.sound1 ∧ In16 m.sound2 ∧ In16 m.soundFlags ∧ In16 m.unknown1 ∧ In16 m.unknown2 ∧ In16 m.script ∧ In16 m.unknown3
 
+instance (x : RawMainD4) : Decidable x.Valid := by unfold RawMainD4.Valid; infer_instance
+
 def encMainD4 (m : RawMainD4) : Bytes :=
   encS .be 2 m.flags ++ [m.transDuration, m.transChunk, m.fps, m.transition] ++ encS .be 2 m.sound1 ++ encS .be 2 m.sound2 ++
     encS .be 2 m.soundFlags ++ encS .be 2 m.unknown1 ++ encS .be 2 m.unknown2 ++ encS .be 2 m.script ++ encS .be 2 m.unknown3
@@ -182,6 +184,8 @@ structure RawPalD4 where
 def RawPalD4.Valid (p : RawPalD4) : Prop :=
   In16 p.paletteId ∧ In16 p.unknown2 ∧ In16 p.unknown4 ∧ In16 p.cycles ∧ In16 p.unknown6 ∧ In16 p.unknown7 ∧ In16 p.unknown8 ∧ In16 p.unknown9
 
+instance (x : RawPalD4) : Decidable x.Valid := by unfold RawPalD4.Valid; infer_instance
+
 def encPalD4 (p : RawPalD4) : Bytes :=
   encS .be 2 p.paletteId ++ encS .be 2 p.unknown2 ++ [p.opcode, p.fps] ++ encS .be 2 p.unknown4 ++ encS .be 2 p.cycles ++
     encS .be 2 p.unknown6 ++ encS .be 2 p.unknown7 ++ encS .be 2 p.unknown8 ++ encS .be 2 p.unknown9 ++ [p.pad0, p.pad1]
@@ -206,6 +210,8 @@ structure RawSpriteD4 where
 
 def RawSpriteD4.Valid (s : RawSpriteD4) : Prop :=
   In16 s.spriteType ∧ In16 s.castId ∧ In16 s.y ∧ In16 s.x ∧ In16 s.height ∧ In16 s.width ∧ s.flag1 < 65536 ∧ s.flag2 < 65536
+
+instance (x : RawSpriteD4) : Decidable x.Valid := by unfold RawSpriteD4.Valid; infer_instance
 
 def encSpriteD4 (s : RawSpriteD4) : Bytes :=
   encS .be 2 s.spriteType ++ [s.fg, s.bg, s.flags, s.ink] ++ encS .be 2 s.castId ++ encS .be 2 s.y ++ encS .be 2 s.x ++
@@ -236,6 +242,8 @@ def RawMainD5.Valid (m : RawMainD5) : Prop :=
   In16 m.unknown01 ∧ In16 m.script ∧ In16 m.unknown03 ∧ In16 m.sound1 ∧ In16 m.unknown05 ∧ In16 m.sound2 ∧ In16 m.unknown07 ∧
   In16 m.transCast ∧ In16 m.unknown08 ∧ In16 m.unknown09 ∧ In16 m.fps ∧ In16 m.unknown10
 
+instance (x : RawMainD5) : Decidable x.Valid := by unfold RawMainD5.Valid; infer_instance
+
 def encMainD5 (m : RawMainD5) : Bytes :=
   encS .be 2 m.unknown01 ++ encS .be 2 m.script ++ encS .be 2 m.unknown03 ++ encS .be 2 m.sound1 ++ encS .be 2 m.unknown05 ++
     encS .be 2 m.sound2 ++ encS .be 2 m.unknown07 ++ encS .be 2 m.transCast ++ encS .be 2 m.unknown08 ++ encS .be 2 m.unknown09 ++
@@ -257,6 +265,8 @@ structure RawPalD5 where
 
 def RawPalD5.Valid (p : RawPalD5) : Prop :=
   In16 p.unknown01 ∧ In16 p.paletteId ∧ In16 p.unknown02 ∧ In16 p.unknown03 ∧ In16 p.cycles ∧ p.pad.length = 12
+
+instance (x : RawPalD5) : Decidable x.Valid := by unfold RawPalD5.Valid; infer_instance
 
 def encPalD5 (p : RawPalD5) : Bytes :=
   encS .be 2 p.unknown01 ++ encS .be 2 p.paletteId ++ [p.fps, p.opcode] ++ encS .be 2 p.unknown02 ++ encS .be 2 p.unknown03 ++
@@ -286,6 +296,8 @@ def RawSpriteD5.Valid (s : RawSpriteD5) : Prop :=
   In16 s.spriteType ∧ In16 s.castId ∧ In16 s.unknown02 ∧ In16 s.unknown03 ∧ In16 s.y ∧ In16 s.x ∧ In16 s.height ∧ In16 s.width ∧
   s.flag2 < 65536 ∧ s.flag1 < 65536
 
+instance (x : RawSpriteD5) : Decidable x.Valid := by unfold RawSpriteD5.Valid; infer_instance
+
 def encSpriteD5 (s : RawSpriteD5) : Bytes :=
   [s.unknown01, s.ink] ++ encS .be 2 s.spriteType ++ encS .be 2 s.castId ++ encS .be 2 s.unknown02 ++ encS .be 2 s.unknown03 ++
     [s.fg, s.bg] ++ encS .be 2 s.y ++ encS .be 2 s.x ++ encS .be 2 s.height ++ encS .be 2 s.width ++ encU16 s.flag2 ++ encU16 s.flag1
@@ -295,5 +307,60 @@ def viewSpriteD5 (s : RawSpriteD5) : Option Sprite :=
     some ⟨s.spriteType, s.castId, b2i s.fg, b2i s.bg, b2i s.ink % 64, none, s.y, s.x, s.height, s.width, b2i s.ink / 64 % 2,
           (s.flag2 : Int) / 32768 % 2 ≠ 0, (s.flag2 : Int) / 16384 % 2 ≠ 0⟩
   else none
+
+end Drx.Vwsc.Spec
+
+/-! ### a whole channel buffer: main channel, palette channel, sprite channels -/
+namespace Drx.Vwsc.Spec
+open Drx Drx.Vwsc
+
+structure RawFrameD4 where
+  main : RawMainD4
+  pal : RawPalD4
+  sprites : List RawSpriteD4
+
+def encSpritesD4 : List RawSpriteD4 → Bytes
+  | [] => []
+  | s :: ss => encSpriteD4 s ++ encSpritesD4 ss
+
+def encFrameD4 (f : RawFrameD4) : Bytes := encMainD4 f.main ++ encPalD4 f.pal ++ encSpritesD4 f.sprites
+def viewFrameD4 (f : RawFrameD4) : Frame := ⟨viewMainD4 f.main, viewPalD4 f.pal, f.sprites.map viewSpriteD4⟩
+def RawFrameD4.Valid (f : RawFrameD4) : Prop := f.main.Valid ∧ f.pal.Valid ∧ ∀ s ∈ f.sprites, s.Valid
+
+structure RawFrameD5 where
+  main : RawMainD5
+  pal : RawPalD5
+  sprites : List RawSpriteD5
+
+def encSpritesD5 : List RawSpriteD5 → Bytes
+  | [] => []
+  | s :: ss => encSpriteD5 s ++ encSpritesD5 ss
+
+def encFrameD5 (f : RawFrameD5) : Bytes := encMainD5 f.main ++ encPalD5 f.pal ++ encSpritesD5 f.sprites
+def viewFrameD5 (f : RawFrameD5) : Frame := ⟨viewMainD5 f.main, viewPalD5 f.pal, f.sprites.map viewSpriteD5⟩
+def RawFrameD5.Valid (f : RawFrameD5) : Prop := f.main.Valid ∧ f.pal.Valid ∧ ∀ s ∈ f.sprites, s.Valid
+
+end Drx.Vwsc.Spec
+
+/-! ### how the data block sits in a VWSC chunk -/
+namespace Drx.Vwsc.Spec
+open Drx Drx.Vwsc
+
+/-- DRX files hold the data block itself (anything may follow it); DIR files wrap it -/
+inductive Container where
+  | bare (trailing : Bytes)
+  | wrapped (w : Wrapper)
+  deriving Repr
+
+def Container.apply : Container → Bytes → Bytes
+  | .bare t, inner => inner ++ t
+  | .wrapped w, inner => wrap w inner
+
+def Container.Valid : Container → Bytes → Prop
+  | .bare _, _ => True
+  | .wrapped w, inner => w.Valid inner
+
+instance (c : Container) (inner : Bytes) : Decidable (c.Valid inner) := by
+  cases c <;> unfold Container.Valid <;> infer_instance
 
 end Drx.Vwsc.Spec
